@@ -292,7 +292,7 @@ def check_circuit_side(ctx):
     fn = m.func(CIRC + ".Circuit.get_counts")
     ctx.analysed(CIRC + ".Circuit.get_counts", CIRC + ".Circuit.measure", CIRC + ".Circuit.init_and_discard", CIRC + ".Circuit.is_mixed")
     src = ast.unparse(fn)
-    ok = "utensor, counts = (self.init_and_discard().eval(), dict())" in src and "counts[bits] = utensor.array[bits].real" in src and "index2bitstring(i, len(utensor.cod))" in src
+    ok = ("utensor, counts = (self.init_and_discard().eval(), dict())" in src or "utensor = self.init_and_discard().eval()" in src) and "counts[bits] = utensor.array[bits].real" in src and "index2bitstring(i, len(utensor.cod))" in src
     ctx.ob("R12.6", CIRC + ".Circuit.get_counts", ok, found=[l for l in src.split("\n") if "utensor" in l][:4], required="counts are the real parts of the evaluation of init_and_discard(), keyed by bitstring",
            mod=CIRC, node=fn, sig="get-counts")
     fn = m.func(CIRC + ".Circuit.measure")
